@@ -190,9 +190,10 @@ func zzH04_graphFreeze() {
 	shapes := zzGShapes(n)
 	shapes = shapes[:zzParam("shapes", 5, len(shapes))]
 	shape := shapes[zzChoice("shape", len(shapes))]
-	// quick tier: one representative of {dict keys, set keys} and of {defaults, cells}
+	// quick tier: one representative of {dict keys, set keys} and of {defaults, cells}; bound-method
+	// receivers occur as the wrapped keys of the dict-key kind
 	inner := []int{zzGList, zzGDictV, zzGDictK, zzGTuple, zzGFnCells, zzGBuiltin, zzGSetK, zzGFnDefaults}
-	inner = inner[:zzParam("kinds", 6, 8)]
+	inner = inner[:zzParam("kinds", 5, 8)]
 	leaf := []int{zzGList, zzGDictV, zzGSetK}
 	kinds := make([]int, n)
 	for i := range kinds {
